@@ -151,7 +151,7 @@ theorem ab_has_ext : nameAndExt (baseName [97, 46, 98]) = some ([97], [98]) := b
 /-- a script that looks at a directory and a file; `t₂` adds a file elsewhere: every call succeeds on
 `t₁` and gets the same on `t₂`; on a tree where the file is gone the call fails -/
 example :
-    let t₁ : InFS := fun p => if p = [116] then some (.dir [.dir [115] []]) else if p = [97, 46, 98] then some (.file [1]) else none
+    let t₁ : InFS := fun p => if p = [116] then some (.dir [.dir [115] [], .link [108] [7]]) else if p = [97, 46, 98] then some (.file [1]) else none
     let t₂ : InFS := fun p => if p = [122] then some (.file [7]) else t₁ p
     let t₃ : InFS := fun p => if p = [97, 46, 98] then none else t₁ p
     (SOp.addFile [97, 46, 98]).resolve [] t₁ = .addFile [97, 46, 98] [1] ∧
